@@ -5,6 +5,7 @@
 #include "../../core/interpreter.h"
 #include "../../core/type_inference.h"
 #include "../../evaluator/core/evaluator.h"
+#include "../../managers/types/enums.h"
 #include <stdexcept>
 
 // return文の実行
@@ -429,9 +430,13 @@ void ReturnHandler::handle_enum_access_return(const ASTNode *node) {
     int64_t enum_value = interpreter_->eval_expression(enum_access);
 
     // v0.12.1: Result/Optionの場合は、?演算子対応のため構造体として返す
+    // A unit variant of any enum that has payload variants (E::A) is an enum
+    // value as well and must keep its variant; only members of plain C-style
+    // enums are returned as integers.
     std::string enum_name = enum_access->enum_name;
     bool is_result_or_option =
-        (enum_name.find("Result") == 0 || enum_name.find("Option") == 0);
+        (enum_name.find("Result") == 0 || enum_name.find("Option") == 0 ||
+         interpreter_->get_enum_manager()->has_associated_values(enum_name));
 
     if (is_result_or_option) {
         // Result/Optionの場合：構造体として返す
